@@ -1849,7 +1849,10 @@ class Exec:
         sub = Exec(self.interp, self.ctx, f.module, env, f.qualname, func=f, depth=self.depth + 1)
         if isinstance(node, ast.Lambda):
             return sub.expr(node.body)
-        if any(isinstance(n, (ast.Yield, ast.YieldFrom)) for n in ast.walk(node)):
+        is_gen = getattr(node, "_vf_is_generator", None)
+        if is_gen is None:  # decided once per function definition
+            is_gen = node._vf_is_generator = any(isinstance(n, (ast.Yield, ast.YieldFrom)) for n in ast.walk(node))
+        if is_gen:
             raise OutsideSubset(f"generator function {f.qualname}")
         try:
             sub.block(node.body)
